@@ -379,10 +379,14 @@ class Engine:
         if is_int(x) and is_int(y):
             v = [x & y, x ^ y, x | y][k - 2]
         else:
-            bx, by = z3.Int2BV(zexpr(x), 252), z3.Int2BV(zexpr(y), 252)
-            v = z3.BV2Int([bx & by, bx ^ by, bx | by][k - 2], False)
             (lx, hx), (ly, hy) = self.bounds(p, x), self.bounds(p, y)
-            bits = max(hx, hy).bit_length()
+            bits = max(max(hx, hy).bit_length(), 1)
+            # the narrowest width that holds both operands (their bounds are path facts); keeps the
+            # terms syntactically equal to width-matched specifications
+            width = 8 if bits <= 8 else 16 if bits <= 16 else 32 if bits <= 32 else 64 if bits <= 64 \
+                else 128 if bits <= 128 else 252
+            bx, by = z3.Int2BV(zexpr(x), width), z3.Int2BV(zexpr(y), width)
+            v = z3.BV2Int([bx & by, bx ^ by, bx | by][k - 2], False)
             self.setb(p, v, 0, min(P - 1, 2**bits - 1))
         p.mem[("bitwise", off)] = v
         return v
